@@ -198,7 +198,11 @@ func genRedo(rng *rand.Rand, s *mServer, nextVid *uint32) {
 		// max counts of every disk type change between the heartbeats
 		s.Redo = "max-change"
 		s.Max0 = map[string]uint32{}
-		for d, m := range s.Max {
+		for _, d := range []string{"", "ssd"} {
+			m, ok := s.Max[d]
+			if !ok {
+				continue
+			}
 			if m == 0 {
 				s.Max0[d] = 0
 				continue
@@ -264,11 +268,12 @@ func genRedo(rng *rand.Rand, s *mServer, nextVid *uint32) {
 			}
 		}
 		for i := rng.Intn(3); i > 0; i-- {
-			for d := range s.Max {
-				s.Vols0 = append(s.Vols0, mVol{Id: *nextVid, Disk: d, Rp: "000"})
-				*nextVid++
-				break
+			d := ""
+			if _, ok := s.Max[d]; !ok {
+				d = "ssd"
 			}
+			s.Vols0 = append(s.Vols0, mVol{Id: *nextVid, Disk: d, Rp: "000"})
+			*nextVid++
 		}
 	}
 }
